@@ -148,7 +148,7 @@ class Env:
             h = data_algebra.db_model.DBHandle(db_model=model, conn=conn)
             d = self.sched["db"]
             for n in d["load_order"]:
-                h.insert_table(W.to_pandas(self.tabs[n]), table_name=n, allow_overwrite=True)
+                h.insert_table(W.to_pandas(self.tabs[n], self.sched["index"][n]), table_name=n, allow_overwrite=True)
             for i, (tn, cols, desc) in enumerate(d["indexes"]):
                 cl = ", ".join('"' + c + '"' + (" DESC" if desc else "") for c in cols)
                 conn.execute(f'CREATE INDEX "ix_{i}" ON "{tn}" ({cl})')
